@@ -41,6 +41,11 @@ PINS = [
     ("androguard/core/dex/__init__.py", "DCode.get_instructions"),
     ("androguard/core/dex/__init__.py", "DCode.off_to_pos"),
     ("androguard/core/dex/__init__.py", "DCode.get_ins_off"),
+    ("androguard/core/dex/__init__.py", "DCode.get_instruction"),
+    ("androguard/core/dex/__init__.py", "DCode.get_raw"),
+    ("androguard/core/dex/__init__.py", "DCode.get_length"),
+    ("androguard/core/dex/__init__.py", "DCode.set_insn"),
+    ("androguard/core/dex/__init__.py", "DCode.set_instructions"),
     ("androguard/core/dex/__init__.py", "DalvikPacker"),
 ]
 
@@ -449,6 +454,174 @@ def run_boundary(ck, full, procs=12):
              samples=[{"request": "boundary " + flat[i], "real": real[i][:160]} for i in (0, len(flat) // 2, len(flat) - 1)], dist=dist)
 
 
+# ------------------------------------------------------------------ history stream on real DCode objects
+def _listing(inss):
+    items, off = [], 0
+    for ins in inss:
+        try:
+            raw = hexs(bytes(ins.get_raw()))
+        except Exception:  # noqa
+            raw = "err"
+        n = ins.get_length()
+        items.append(f"{off}:{ins.get_name()}:{n}:{raw}")
+        off += n
+    return "done " + ";".join(items)
+
+
+def _query(dc, op, arg):
+    """one query on a DCode -> canonical answer"""
+    dex, _ = _real()
+    try:
+        if op == "list":
+            return _listing(list(dc.get_instructions()))
+        if op == "raw":
+            return "raw " + hexs(bytes(dc.get_raw()))
+        if op == "len":
+            return f"len {dc.get_length()}"
+        if op == "insoff":
+            i = dc.get_ins_off(arg)
+            return "insoff " + ("None" if i is None else f"{i.get_name()}:{hexs(bytes(i.get_raw()))}")
+        if op == "pos":
+            return f"pos {dc.off_to_pos(arg)}"
+        if op == "ins":
+            list(dc.get_instructions())        # as every caller does: list first (guarded), then index
+            i = dc.get_instruction(arg)
+            return f"ins {i.get_name()}:{hexs(bytes(i.get_raw()))}"
+    except dex.InvalidInstruction:
+        return "invalid"
+    except IndexError:
+        return "indexerror"
+    except Exception as e:  # noqa
+        return "other:" + type(e).__name__
+    return "bad-op"
+
+
+def _fresh(buf):
+    dex, CM = _real()
+    return dex.DCode(CM(False), 0, (len(buf) + 1) // 2, bytearray(buf))
+
+
+def run_history(h):
+    """h = {"init": hex, "steps": [[op, arg], ...]}.  One live DCode goes through the steps; after every query the
+    answer must be the one a FRESH DCode on the bytes in effect gives.  -> (list of (step, live, fresh), index of the
+    first differing step or None, the byte strings that were in effect)"""
+    dex, CM = _real()
+    cur = bytes.fromhex(h["init"])          # what set_insn loaded
+    eff = cur                                # the bytes whose decoding is in effect (an injected list overrides)
+    dc = _fresh(cur)
+    log, bad, effs = [], None, [cur]
+    for k, (op, arg) in enumerate(h["steps"]):
+        if op == "load":                     # set_insn(new program) + drop the cache
+            cur = eff = bytes.fromhex(arg)
+            dc.set_insn(bytearray(cur)); dc.set_instructions(None)
+            effs.append(eff); log.append((f"load {arg}", "", "")); continue
+        if op == "inject":                   # set_instructions(instruction list of another, valid program)
+            eff = bytes.fromhex(arg)
+            dc.set_instructions(list(_fresh(eff).get_instructions()))
+            effs.append(eff); log.append((f"inject {arg}", "", "")); continue
+        if op == "reload":                   # set_instructions(None): back to the loaded bytes
+            eff = cur
+            dc.set_instructions(None)
+            log.append(("reload", "", "")); continue
+        live = _query(dc, op, arg)
+        fresh = _query(_fresh(eff), op, arg)
+        log.append((f"{op} {arg if arg is not None else ''}".strip(), live, fresh))
+        if live != fresh and bad is None:
+            bad = k
+    return log, bad, effs
+
+
+def _invalid_program(rng):
+    """a valid prefix (possibly empty) followed by something the sweep must reject"""
+    code, _ = DS.random_program(rng, rng.randrange(0, 6), with_payloads=rng.random() < 0.3)
+    b = bytearray(code)
+    m = rng.randrange(6)
+    if m == 0:
+        b += bytes([rng.choice((0x3e, 0x3f, 0x43, 0x73, 0x79, 0x7a, 0xe3, 0xf9)), rng.randrange(256)])   # unused opcode
+    elif m == 1:
+        b += rng.choice((bytes([0x0e, rng.randrange(1, 256)]), bytes([0x29, rng.randrange(1, 256), 4, 0]),
+                         bytes([0x2a, 1, 0, 0, 0, 0]), bytes([0x03, 7, 1, 0, 2, 0])))                    # non-zero pad byte
+    elif m == 2:
+        ins = DS.random_insn(rng, rng.choice((0x13, 0x14, 0x18, 0x6e, 0x02)))
+        b += ins[: rng.randrange(2, len(ins), 2)]                                                         # truncated last instruction
+    elif m == 3:
+        p = bytearray(DS.random_payload(rng, max_size=3))
+        p[2 if p[1] != 3 else 4] = rng.choice((50, 100, 255))                                             # payload running past the end
+        if len(b) % 4:
+            b += b"\0\0"
+        b += p
+    elif m == 4:
+        b += bytes([rng.randrange(256)])                                                                  # odd trailing byte
+    else:
+        b += bytes([0x3e, 0]) + DS.random_insn(rng)                                                       # unused opcode in the middle
+    return bytes(b)
+
+
+def gen_histories(rng, n):
+    out = []
+    for _ in range(n):
+        def prog(valid=None):
+            if valid is None:
+                valid = rng.random() < 0.45
+            return DS.random_program(rng, rng.randrange(1, 8), with_payloads=rng.random() < 0.4)[0] if valid else _invalid_program(rng)
+        cur = init = prog()
+        steps = []
+        for _ in range(rng.randrange(3, 11)):
+            r = rng.random()
+            if r < 0.10:
+                cur = prog(); steps.append(["load", cur.hex()])
+            elif r < 0.16:
+                steps.append(["inject", prog(True).hex()])
+            elif r < 0.22:
+                steps.append(["reload", None])
+            else:
+                op = rng.choice(("list", "list", "raw", "len", "insoff", "pos", "ins"))
+                arg = None
+                if op in ("insoff", "pos"):
+                    arg = rng.choice((0, 2, 4, 6, rng.randrange(0, len(cur) + 3)))
+                elif op == "ins":
+                    arg = rng.choice((0, 0, 1, 2, rng.randrange(0, 12)))
+                steps.append([op, arg])
+        out.append({"init": init.hex(), "steps": steps})
+    return out
+
+
+
+def _hchunk(hs):
+    from harness.fw import quiet_androguard
+    quiet_androguard()
+    res = []
+    for h in hs:
+        log, bad, effs = run_history(h)
+        res.append((bad, log[bad] if bad is not None else None, [e.hex() for e in effs], sum(1 for x in log if x[1] == "invalid")))
+    return res
+
+
+def run_histories(ck, drv, n, prop="C02"):
+    """histories on real DCode objects; every distinct byte string in effect is also swept by the Lean model"""
+    hs = gen_histories(ck.rng, n)
+    procs = 8
+    parts = [hs[k::procs] for k in range(procs)]
+    with Pool(procs) as pool:
+        res = pool.map(_hchunk, parts)
+    flat = [(h, r) for part, rs in zip(parts, res) for h, r in zip(part, rs)]
+    nf, steps, inval = 0, 0, 0
+    effs = set()
+    for h, (bad, entry, es, ninv) in flat:
+        steps += len(h["steps"]); inval += ninv
+        effs.update(es)
+        if bad is not None and nf < 5:
+            nf += 1
+            ck.fail({"history": h}, f"step {bad} ({entry[0]}) of a history on one DCode object answers differently from a fresh DCode "
+                    "on the same bytes (the answer depends on earlier queries)", None, entry[2][:300], entry[1][:300])
+    if drv is not None:
+        reqs = sorted(f"sweep 0 {(len(e) // 2 + 1) // 2} 0 {e if e else '-'}" for e in effs)
+        run_stream(ck, drv, "history-bytes", reqs)
+    ck.cover(evaluations=steps, distinct={json.dumps(h, sort_keys=True) for h, _ in flat},
+             samples=[{"request": "history " + json.dumps(flat[0][0])[:200]}],
+             dist={"history:histories": len(flat), "history:steps": steps, "history:invalid-answers": inval})
+
+
 def corpus_cases():
     return [(os.path.basename(p), json.load(open(p))) for p in sorted(glob.glob(os.path.join(VERIF, "corpus", "C02", "*.json")))]
 
@@ -473,6 +646,7 @@ def run(ck: Check):
     if creqs:
         run_stream(ck, drv, "corpus", creqs)
     run_boundary(ck, big)
+    run_histories(ck, drv, 6000 if big else 400)
     nprog = 150000 if big else 6000
     progs = gen_programs(rng, nprog)
     run_stream(ck, drv, "assembled", [p[0] for p in progs], [p[1] for p in progs])
@@ -494,6 +668,12 @@ def run(ck: Check):
             break
     ck.assumptions.append("the ClassManager is a stand-in providing only `packer` and `get_odex_format` (as tests/test_dex.py); "
                           "struct modelled as AgVerif.Insn.pack/unpack")
+    ck.notes.append("history stream: seeded sequences (3-10 steps) of get_instructions / get_raw / get_length / get_ins_off / off_to_pos / "
+                    "get_instruction / set_insn+reload / set_instructions on ONE real DCode object, over valid programs and programs "
+                    "ending in or containing an unused opcode, a non-zero pad byte, a truncated instruction, a payload past the end, "
+                    "an odd trailing byte; after every step the answer must equal that of a FRESH DCode on the bytes in effect — "
+                    "which is what the Lean model says, being a pure function of the bytes (its sweep of every byte string in effect "
+                    "is compared in the stream history-bytes)")
     ck.notes.append("registered against the tree with fixes/C01-31c-unsigned-index.diff and fixes/C02-*.diff applied; "
                     "PackedSwitch's max_size rule and FillArrayData's silent truncation are modelled as they are "
                     "(they are unreachable for yielded items once the end-of-code check is in place)")
@@ -505,6 +685,13 @@ def replay(ck: Check, rp):
     c = rp.get("case") or rp.get("first_divergence") or {}
     rq = c.get("request")
     print("replay", c)
+    if c.get("history"):
+        log, bad, _ = run_history(c["history"])
+        for k, (st, live, fresh) in enumerate(log):
+            mark = "  <-- differs" if live != fresh else ""
+            print(f"  step {k}: {st[:120]}\n      live : {live[:200]}\n      fresh: {fresh[:200]}{mark}")
+        print("first differing step:", bad)
+        return 0
     lb = c.get("boundary") or (rq[len("boundary "):] if rq and rq.startswith("boundary ") else None)
     if lb:
         rq, exp = boundary_case(lb)
